@@ -70,11 +70,15 @@ impl Dialect for MySqlDialect {
     ) -> Option<Result<crate::ast::Expr, ParserError>> {
         // Parse DIV as an operator
         if parser.parse_keyword(Keyword::DIV) {
-            Some(parser.parse_subexpr(precedence).map(|right| Expr::BinaryOp {
-                left: Box::new(expr.clone()),
-                op: BinaryOperator::MyIntegerDivide,
-                right: Box::new(right),
-            }))
+            Some(
+                parser
+                    .parse_subexpr(precedence)
+                    .map(|right| Expr::BinaryOp {
+                        left: Box::new(expr.clone()),
+                        op: BinaryOperator::MyIntegerDivide,
+                        right: Box::new(right),
+                    }),
+            )
         } else {
             None
         }
